@@ -28,6 +28,10 @@ fn explore_history(r: &Run, id: &str) {
     if id == "C08" || id == "C04" {
         return; // C08 explores its own alphabet inside c08::run; C04's entry points are C08's
     }
+    if std::env::var("NVCHECK_NO_HISTORY").is_ok() {
+        return; // measurements only
+    }
+    let t0 = std::time::Instant::now();
     let ops = history_ops(id);
     if ops.is_empty() {
         return;
@@ -38,6 +42,7 @@ fn explore_history(r: &Run, id: &str) {
     };
     r.rule("call histories: every ordered pair of ops (the property's oracle on a few plain inputs + shared context calls that fail half-way, use another format, touch look-alike values) on a brand-new thread, compared with the op evaluated with no earlier call");
     guarded(r, || explore_with(r, id, &ops, 2, mode, base, &[]));
+    r.count("history_wall_ms", t0.elapsed().as_millis() as u64);
 }
 
 pub fn run(id: &str, tier: Tier) -> i32 {
